@@ -397,6 +397,12 @@ def _check_luby_rackoff(repo, r6, lrc):
     r6.require(okL and okR, lrc, "Feistel round shape",
                "LubyRackoffPRP: one round maps (L, R) to (%s, %s); expected (R, L xor F_i(R))" % (S.show(L2) if L2 else None, S.show(R2)[:100] if R2 else None), sm.loop)
     tm = shape.times(sm, None)
+    third_s = ("op", "FloorDiv", ("attr", ("var", "self"), "key_length"), ("const", 3))
+    chunked = [("call", ("fn", "chunks"), (("var", kp), third_s), ()), ("call", ("fn", "toolkit.list_utils.chunks"), (("var", kp), third_s), ())]
+    chunked += [("call", ("fn", "list"), (x,), ()) for x in list(chunked)]
+    by_chunks = sm.kind == "for" and sm.iter is not None and (sm.iter in chunked or (sm.iter[0] == "slice" and sm.iter[1] in chunked and sm.iter[2] is None and sm.iter[3] == ("const", 3)))
+    if by_chunks:
+        tm = ("count", ("const", 3), None)   # the key has 3 * (key_length // 3) bytes (constructor constraint + length guard)
     r6.require(tm is not None and tm[0] == "count" and tm[1] == ("const", 3), lrc, "three rounds",
                "LubyRackoffPRP runs %s rounds; three are needed for a PRP" % (S.show(tm[1]) if tm and tm[1] is not None else tm), sm.loop)
     if okR:
@@ -406,7 +412,9 @@ def _check_luby_rackoff(repo, r6, lrc):
         K = ("attr", ("var", "self"), "key_length")
         ok_key = False
         shown = S.show(Fk)[:100]
-        if Fk[0] == "sub" and Fk[2] == ("var", ivar):
+        if by_chunks and Fk == ("var", ivar):
+            ok_key = True   # one chunk of key_length // 3 bytes per round, in order (chunks: R17.4)
+        elif Fk[0] == "sub" and Fk[2] == ("var", ivar):
             ft = fn_terms(repo, lrc)
             for n in ft.cfg.nodes:
                 if n.stmt is None or n.ast is None:
